@@ -560,7 +560,7 @@ func genC12(c *h.Ctx) {
 		if zi > 0 {
 			scale = 6
 			if c.Thorough() {
-				scale = 16
+				scale = 24
 			}
 		}
 		sub := &h.Ctx{Tier: c.Tier, Seed: c.Seed, Rng: c.Rng.Fork(), Dist: map[string]int{}}
@@ -723,7 +723,7 @@ func genStream(c *h.Ctx, zone string, scale int) {
 		lsnames := []string{"Milliseconds", "Seconds", "Minutes", "Hours", "Date", "Month", "FullYear", "Year"}
 		lslimits := []int{1, 2, 3, 4, 1, 2, 3, 1}
 		lsfieldIdx := [][]int{{6}, {5, 6}, {4, 5, 6}, {3, 4, 5, 6}, {2}, {1, 2}, {0, 1, 2}, {0}}
-		for i := 0; i < n(10000, 500000); i++ {
+		for i := 0; i < n(10000, 300000); i++ {
 			var b strings.Builder
 			t0 := float64(int64(r.U64()%6311433600000) - 2208988800000)
 			if r.Chance(30) {
